@@ -182,7 +182,7 @@ func (al *agentListener) serv(c *conn2) {
 			ac := &agentConnection{
 				Laddr: v.Laddr,
 				Raddr: v.Raddr,
-				in:    make(chan []byte),
+				in:    make(chan []byte, 1),
 				out:   out,
 			}
 
